@@ -21,6 +21,7 @@ ResOf(S) == IF S = {} THEN "notfound" ELSE "ok"
 TReset == /\ IsEv("reset")
           /\ db' = {} /\ txnActive' = FALSE /\ txnMods' = {}
           /\ cacheAzks' = {} /\ cacheMap' = {} /\ canClean' = TRUE /\ rejectNext' = FALSE
+          /\ inflight' = {} /\ gen' = 0
 
 TSet == IsEv("set") /\ NoDup(Ev.recs) /\ SetRecs(ToSet(Ev.recs), Ev.res)
 TBegin == IsEv("begin") /\ Begin(Ev.res)
@@ -35,7 +36,7 @@ TCommit ==
 TRollback == IsEv("rollback") /\ Rollback(Ev.res)
 TTombstone == IsEv("tombstone") /\ Tombstone(Ev.user, Ev.epoch, Ev.res)
 TRejectNext == /\ IsEv("reject_next") /\ rejectNext' = TRUE
-               /\ UNCHANGED <<db, txnActive, txnMods, cacheAzks, cacheMap, canClean>>
+               /\ UNCHANGED <<db, txnActive, txnMods, cacheAzks, cacheMap, canClean, inflight, gen>>
 TNoop == (IsEv("flush") \/ IsEv("clean") \/ IsEv("sleep")) /\ Same
 
 TGet == /\ IsEv("get")
